@@ -534,16 +534,16 @@ def main(chk: Check):
     depth = chk.n(4, 5)
     exh = gen_exh(st, cfg_e, depth, alpha)
     exh = [h for h in exh if any(e[0] == "rb" for e in h)]
-    cap = chk.n(600, 3000)
+    cap = chk.n(500, 3000)
     if len(exh) > cap:  # histories cut short by an exception are kept first
         short = [h for h in exh if len(h) < depth][:cap // 2]
         exh = short + rng.sample([h for h in exh if len(h) == depth], cap - len(short))
     streams["exh"] = [(cfg_e, h) for h in exh]
     maxlen = chk.n(6, 8)
-    for _ in range(chk.n(600, 3000)):
+    for _ in range(chk.n(500, 3000)):
         cfg = rand_cfg(rng)
         streams["wf"].append((cfg, gen_wf(st, rng, cfg, rng.randrange(3, maxlen + 1))))
-    for _ in range(chk.n(600, 3000)):
+    for _ in range(chk.n(500, 3000)):
         streams["mal"].append((rand_cfg(rng), gen_mal(rng, rng.randrange(2, maxlen + 1))))
 
     failures = []  # (stream, cfg, history, failure)
@@ -577,7 +577,7 @@ def main(chk: Check):
         r = chk.coq_eval("hist", IMPORTS, "(cfg * list event) * tl",
                          [(f"({c[0]}, {wire(c[1])})", True) for _, c in flat_cases],
                          ["mismatches run_hist cases", "where_ (fun i _ => negb (spec_hist_ok i)) cases"],
-                         shard=chk.n(620, 1500))
+                         shard=chk.n(520, 1500))
         if r is not None:
             a_bad = [flat_cases[i] for i in r[0]]
             b_bad = [flat_cases[i] for i in r[1]]
